@@ -35,7 +35,7 @@ def rootOut (items : List (List UInt8)) : Out :=
   let s := GV.Spec.MerkleRef.refRoot GV.Lib.Blake2b.hash256 items
   { model := toHex m, spec := toHex s }
 
-def handle (line : String) : Out :=
+def handleOp (line : String) : Out :=
   match tokens line with
   | "root" :: k :: rest =>
     match parseNat? k, parseItems rest with
@@ -59,5 +59,14 @@ def handle (line : String) : Out :=
     | some n, some seed => { model := toHex (GV.Lib.Blake2b.hash256 (seqMsg n seed)) }
     | _, _ => badOp
   | _ => badOp
+
+/-- `feed_impl`: the line is `op \t impl-output`.  An op the harness did not run
+    (it stops after four ops of one run crashed the Go process, see
+    harness/util_g7.go) is not evaluated: it is neither a failure nor a pass. -/
+def handle (line : String) : Out :=
+  match line.splitOn "\t" with
+  | [op, impl] =>
+    if impl.startsWith "NOT-RUN" then { model := impl, spec := "*" } else handleOp op
+  | _ => handleOp line
 
 end GV.Drv.C35
